@@ -1302,6 +1302,8 @@ class MultipartPayloadWriter:
                     b64chunk = base64.b64encode(enc_chunk)
                     await self._writer.write(b64chunk)
         elif self._encoding == "quoted-printable":
-            await self._writer.write(binascii.b2a_qp(chunk))
+            # The payload is opaque bytes: text mode would guess a line-end
+            # convention per chunk and rewrite the line ends to match it.
+            await self._writer.write(binascii.b2a_qp(chunk, istext=False))
         else:
             await self._writer.write(chunk)
